@@ -53,6 +53,94 @@ def extract(sx: SX, model, meth, field_suffix):
     return m, paths, others
 
 
+def check_boundary_divisions(model, rep, R='C08.boundary-division'):
+    """floating-point neighbours of the dead-zone boundary: a denominator that vanishes exactly AT the boundary of the
+    strict guard it sits under is non-zero over the reals, but the guard (`D > i0/imax`) and the denominator
+    (`D*imax - i0`) are different floating-point expressions, so the first float outside the dead zone can make the
+    denominator round to exactly 0 -> ZeroDivisionError.  Safe only if a test on the path reads the denominator's own
+    variable, or compares the two operands of its cancelling subtraction directly."""
+    import ast
+    from sa.algebra import Rat
+    for meth in ('compute_torque', 'compute_electric_current'):
+        m = model.member('DCMotor', meth)
+        sx = SX(model)
+        sx.track_div_zero = True
+        pos = positive_atoms(sx, 'DCMotor')
+        sxm.POSITIVE_ATOMS.clear()
+        sxm.POSITIVE_ATOMS.update(pos)
+        try:
+            sx.run(m.node, m.module, 'DCMotor')
+        except CannotDecide as e:
+            rep.cannot(R, f'DCMotor.{meth}', str(e), m.loc)
+            continue
+        ctx = sx.ctx
+        # single-assignment locals of the method (to expand a denominator name one level)
+        binds = {}
+        for n in ast.walk(m.node):
+            if isinstance(n, ast.Assign) and len(n.targets) == 1 and isinstance(n.targets[0], ast.Name):
+                binds.setdefault(n.targets[0].id, []).append(n.value)
+        seen = set()
+        for node, den, guards, tested in sx.div_sites:
+            if getattr(node, 'lineno', 0) < m.node.lineno or getattr(node, 'lineno', 0) > m.node.end_lineno:
+                continue
+            den = ctx.reduce(den)
+            tight = None
+            for g in guards:
+                if g.kind != 'cmp' or g.key[0] not in ('<', '!=') or not sx.guard_sources.get((g.kind, g.key)):
+                    continue          # only guards written as tests in the method (not derived case facts)
+                # does the denominator vanish wherever the guard's difference does?
+                if _vanishes_on(ctx, den, g.rat):
+                    tight = g
+                    break
+            key = (node.lineno, ctx.show(den)[:60])
+            if tight is None or key in seen:
+                continue
+            seen.add(key)
+            # syntactic part: names the denominator is made of (one level of local expansion) and its cancelling subtractions
+            dnode = node.right
+            names = {ast.unparse(x) for x in ast.walk(dnode) if isinstance(x, (ast.Name, ast.Attribute))}
+            subs = []
+            todo = [dnode] + [v for x in ast.walk(dnode) if isinstance(x, ast.Name) for v in binds.get(x.id, [])]
+            for t in todo:
+                for x in ast.walk(t):
+                    if isinstance(x, ast.BinOp) and isinstance(x.op, (ast.Sub, ast.Add)):
+                        subs.append((ast.unparse(x.left), ast.unparse(x.right)))
+            safe = False
+            for g in [None]:
+                for test in tested:
+                    tnames = {ast.unparse(x) for x in ast.walk(test) if isinstance(x, (ast.Name, ast.Attribute))}
+                    if isinstance(dnode, ast.Name) and dnode.id in tnames:
+                        safe = True
+                    if isinstance(test, ast.Compare) and len(test.ops) == 1:
+                        sides = {ast.unparse(test.left), ast.unparse(test.comparators[0])}
+                        if any({a, b} == sides for a, b in subs):
+                            safe = True
+            rep.decide(safe, R, f'DCMotor.{meth}[line-of `{ast.unparse(node)[:40]}`]',
+                       f'the denominator `{ast.unparse(dnode)[:50]}` = {ctx.show(den)[:70]} vanishes exactly at the boundary of the guard '
+                       f'`{tight.show(ctx)[:60]}` it sits under, and no test on the path reads it: at the first float outside the dead zone it can '
+                       f'round to 0 and the division raises ZeroDivisionError', loc=f'{m.module}:{node.lineno}')
+            rep.inspect()
+
+
+def _vanishes_on(ctx, den, d) -> bool:
+    """den == 0 wherever d == 0: solve d's numerator for an atom it is linear in and substitute into den"""
+    from sa.algebra import Rat
+    num = Rat(d.n)
+    for a in sorted(d.n.atoms()):
+        if a.startswith('F[') or '#' in a:
+            continue
+        v0, v1, v2 = (ctx.reduce(ctx.subst(num, {a: Rat.const(k)})) for k in (0, 1, 2))
+        c1 = ctx.reduce(v1 - v0)
+        if c1.is_zero() or not ctx.reduce(v2 - v1 - c1).is_zero():
+            continue
+        try:
+            at = ctx.reduce(ctx.subst(den, {a: ctx.reduce(-v0 / c1)}))
+        except ZeroDivisionError:
+            return True
+        return at.is_zero()
+    return False
+
+
 def check(model, rep):
     rep.explain('C08: DCMotor.compute_torque / compute_electric_current evaluated by gated value numbering '
                 '(sa.sx) into canonical rational terms over the motor constants, speed and duty cycle, '
@@ -175,6 +263,7 @@ def check(model, rep):
     if not impure:
         rep.require('C08.mirror', 2)
         rep.require('C08.continuity', 2)
+    check_boundary_divisions(model, rep)
     rep.analysed['methods'] = ['DCMotor.compute_torque', 'DCMotor.compute_electric_current', 'DCMotor.__init__']
     rep.analysed['positive_facts_from_ctor'] = sorted(pos)
     rep.assume('quantity operators and comparisons are unit-blind and dimensionally sound (decided by C05/C06)')
